@@ -45,20 +45,17 @@ fn run(prop: &str, tier: &str) -> i32 {
         "amount alphabet is {0..3} plus boundary values, not all of u128".into(),
         "addresses are MockApi bech32 addresses".into(),
     ];
-    use rayon::prelude::*;
     let seed = mc::report::seed();
-    let runs: Vec<RunStats> = cfgs
-        .par_iter()
-        .map(|(c, d)| {
-            let m = Cw20Model { cfg: c.clone() };
-            let b = Bounds {
-                max_depth: *d,
-                max_states: 6_000_000,
-                max_secs: if thorough { 1500.0 } else { 100.0 },
-            };
-            mc::bfs(&m, &b, &known, seed)
-        })
-        .collect();
+    let runs: Vec<RunStats> = mc::run_pooled(cfgs.len(), |i| {
+        let (c, d) = &cfgs[i];
+        let m = Cw20Model { cfg: c.clone() };
+        let b = Bounds {
+            max_depth: *d,
+            max_states: 6_000_000,
+            max_secs: if thorough { 1500.0 } else { 100.0 },
+        };
+        mc::bfs(&m, &b, &known, seed)
+    });
     rep.runs = runs;
     rep.finish()
 }
